@@ -359,6 +359,7 @@ func c17(ctx *Ctx) {
 		ctx.WriteCases(shard, "Corr.C17", "case", terms)
 	}
 	// corpus: scrape racing with a tunnel start (child process: the defect was a process panic)
+	c17ServiceE2E(ctx)
 	out, code := runSelfChild(20*time.Second, "c17scrape")
 	ctx.Count("corpus:scrape-vs-start")
 	if code != 0 || !strings.Contains(out, "scrape survived") {
